@@ -17,7 +17,7 @@ STORAGE_KINDS = ("battery", "battery_system", "supercap", "supercap_system")
 def gen_inputs(rng, spec, n=None, capacity_ok=None):
     """Per-component series for an electric plant spec."""
     if n is None:
-        n = int(rng.choice([1, 2, 3, 5, 8]))
+        n = int(rng.choice([1, 2, 3, 5, 8, 60], p=[0.2, 0.2, 0.2, 0.2, 0.17, 0.03]))       # now and then a series longer than the solvers' batches
     ties = spec.get("bus_ties", [])
     p_closed = float(rng.choice([0.4, 0.7, 1.0]))
     breaker = [[bool(rng.random() < p_closed) for _ in range(n)] for _ in ties]
@@ -32,6 +32,7 @@ def gen_inputs(rng, spec, n=None, capacity_ok=None):
                     "breaker": str(rng.choice(["bool", "int", "float"], p=[0.2, 0.4, 0.4] if swap else [0.6, 0.2, 0.2]))}
     # sharing-mode series written by hand are often integer arrays ([0, 0, 1]); one array object may serve several components
     inp["dtype"]["mode"] = str(rng.choice(["float", "int"], p=[0.7, 0.3]))
+    inp["dtype"]["dt"] = str(rng.choice(["float", "int"], p=[0.7, 0.3]))          # intervals in whole seconds as an integer array
     inp["alias"] = bool(rng.random() < 0.25)
     if capacity_ok is None:
         capacity_ok = rng.random() < 0.9
@@ -112,7 +113,15 @@ def apply_inputs(plant, inp, copy=True):
             table = kept
         plant._breaker_table = table
         sys_.set_bus_tie_status_all(table)
-    sys_.set_time_interval(np.array(inp["dt"], dtype=float), integration_method=IntegrationMethod.sum_with_time)
+    dt_int = inp.get("dtype", {}).get("dt") == "int" and all(float(x).is_integer() for x in inp["dt"])
+    swbs = sorted({c["swb"] for c in plant.spec["electric"]})
+    for key, val in [("steps", "1" if n == 1 else ("2-8" if n <= 8 else ("9-59" if n < 60 else "60+"))), ("status", st_dt.__name__), ("breaker", br_dt.__name__),
+                     ("power", pw_dt.__name__), ("mode", inp.get("dtype", {}).get("mode", "float")), ("interval", "int" if dt_int else "float"),
+                     ("alias", bool(inp.get("alias"))), ("switchboard-numbers", "1..n" if swbs == list(range(1, len(swbs) + 1)) else "other"),
+                     ("component-list", "permuted" if plant.spec.get("order") else "as-generated"),
+                     ("names", plant.spec.get("relabelled", "unique"))]:
+        core.axis(key, val)
+    sys_.set_time_interval(np.array(inp["dt"], dtype=int if dt_int else float), integration_method=IntegrationMethod.sum_with_time)
 
 
 def observe(plant, inp):
